@@ -159,3 +159,120 @@ Proof.
     by (rewrite EH, L0; lra).
   pyrun5. orb0_finish J j0 j1 T t.
 Qed.
+
+(* ------------------------------------------------------------------ *)
+(** * the zero-inclination results are the right ORBIT: the frame Rz(node) Rx(i) Rz(arg) built from the
+      returned elements is the ecliptical precession rotation applied to the frame of the input *)
+
+Definition orbit_frame (i w node : R) (v : vec) : vec := Rz (d2r node) (Rx (d2r i) (Rz (d2r w) v)).
+
+Lemma Rz_of_cos_sin a b v : cos a = cos b -> sin a = sin b -> Rz a v = Rz b v.
+Proof. intros Hc Hs. destruct v as [[x y] z]. unfold Rz. rewrite Hc, Hs. reflexivity. Qed.
+
+Lemma Rz_PI_Rx a v : Rz PI (Rx a (Rz PI v)) = Rx (- a) v.
+Proof.
+  destruct v as [[x y] z]. unfold Rz, Rx. rewrite cos_PI, sin_PI, cos_neg, sin_neg.
+  apply vec_eq; ring.
+Qed.
+
+(* the increment of the argument of perihelion for i0 = 0: F + 180 deg when sin E > 0, F when sin E < 0 *)
+Lemma domega_pos E F v : 0 < sin E ->
+  Rz (atan2 (- sin E * sin F) (sin (d2r 0) * cos E - cos (d2r 0) * sin E * cos F)) v = Rz (F + PI) v.
+Proof.
+  intro Hs. rewrite d2r_0, sin_0, cos_0.
+  replace (0 * cos E - 1 * sin E * cos F) with (sin E * (- cos F)) by ring.
+  replace (- sin E * sin F) with (sin E * (- sin F)) by ring.
+  rewrite atan2_scale by exact Hs.
+  assert (Hr : rho (- cos F) (- sin F) = 1).
+  { unfold rho. replace (- cos F * - cos F + - sin F * - sin F) with 1; [apply sqrt_1|].
+    pose proof (sin2_eq F). lra. }
+  apply Rz_of_cos_sin.
+  - rewrite atan2_cos by (pose proof (sin2_eq F); destruct (Req_dec (cos F) 0); [right; nra | left; lra]).
+    rewrite Hr, neg_cos. field.
+  - rewrite atan2_sin by (pose proof (sin2_eq F); destruct (Req_dec (cos F) 0); [right; nra | left; lra]).
+    rewrite Hr, neg_sin. field.
+Qed.
+
+Lemma domega_neg E F v : sin E < 0 ->
+  Rz (atan2 (- sin E * sin F) (sin (d2r 0) * cos E - cos (d2r 0) * sin E * cos F)) v = Rz F v.
+Proof.
+  intro Hs. rewrite d2r_0, sin_0, cos_0.
+  replace (0 * cos E - 1 * sin E * cos F) with (- sin E * cos F) by ring.
+  rewrite atan2_scale by lra.
+  assert (Hr : rho (cos F) (sin F) = 1).
+  { unfold rho. replace (cos F * cos F + sin F * sin F) with 1; [apply sqrt_1|].
+    pose proof (sin2_eq F). lra. }
+  apply Rz_of_cos_sin.
+  - rewrite atan2_cos by (pose proof (sin2_eq F); destruct (Req_dec (cos F) 0); [right; nra | left; lra]).
+    rewrite Hr. field.
+  - rewrite atan2_sin by (pose proof (sin2_eq F); destruct (Req_dec (cos F) 0); [right; nra | left; lra]).
+    rewrite Hr. field.
+Qed.
+
+Lemma sin_d2r_pos x : 0 < x < 180 -> 0 < sin (d2r x).
+Proof.
+  intros [H1 H2]. apply sin_gt_0.
+  - unfold d2r. pose proof PI_RGT_0. apply Rmult_lt_0_compat; [lra | apply Rdiv_lt_0_compat; lra].
+  - replace PI with (d2r 180) by apply d2r_180. apply d2r_lt. exact H2.
+Qed.
+
+(* the stored argument, as a rotation: Rz (w0 + domega) *)
+Lemma arg_rotation eta pie w0 o0 v :
+  Rz (d2r (red360 (w0 + orb_domega eta pie o0))) v
+  = Rz (d2r w0) (Rz (atan2 (- sin (d2r (dms_sec eta)) * sin (d2r o0 - d2r (pie_deg pie)))
+                           (sin (d2r 0) * cos (d2r (dms_sec eta))
+                            - cos (d2r 0) * sin (d2r (dms_sec eta)) * cos (d2r o0 - d2r (pie_deg pie)))) v).
+Proof.
+  unfold orb_domega. cbv zeta.
+  set (A := atan2 _ _).
+  rewrite (Rz_d2r_cong _ (w0 + r2d A)).
+  - rewrite d2r_plus, d2r_r2d, Rz_add. reflexivity.
+  - eapply cong360_trans; [apply red360_cong'|]. apply cong360_add; [apply cong360_refl | apply red360_cong'].
+Qed.
+
+Theorem orb0_pos_orientation eta pie p w0 o0 v : 0 < dms_sec eta < 180 ->
+  let o := orb_out0_pos eta pie p w0 o0 in
+  orbit_frame (fst (fst o)) (snd (fst o)) (snd o) v
+  = rot_ecl (d2r (dms_sec eta)) (d2r (pie_deg pie)) (d2r (dms_sec p)) (orbit_frame 0 w0 o0 v).
+Proof.
+  intros HE o. unfold o, orb_out0_pos, orbit_frame. cbn [fst snd].
+  set (E := d2r (dms_sec eta)). set (Pi := d2r (pie_deg pie)). set (P := d2r (dms_sec p)).
+  rewrite arg_rotation. fold E Pi.
+  rewrite (domega_pos E (d2r o0 - Pi)) by (apply sin_d2r_pos; exact HE).
+  rewrite (Rz_d2r_cong _ ((pie_deg pie + dms_sec p) + 180))
+    by (eapply cong360_trans; [apply red360_cong'|]; apply cong360_add; [apply red360_cong' | apply cong360_refl]).
+  rewrite !d2r_plus, d2r_180. fold Pi P.
+  unfold rot_ecl. rewrite d2r_0, Rx_0.
+  rewrite <- (Rz_add (Pi + P) PI).
+  rewrite (Rz_add (d2r w0) (d2r o0 - Pi + PI) v).
+  replace (d2r w0 + (d2r o0 - Pi + PI)) with (PI + (d2r w0 + d2r o0 - Pi)) by ring.
+  rewrite <- (Rz_add PI (d2r w0 + d2r o0 - Pi) v).
+  rewrite Rz_PI_Rx.
+  rewrite (Rz_add (d2r o0) (d2r w0) v), (Rz_add (- Pi) (d2r o0 + d2r w0) v).
+  replace (Pi + P) with (P + Pi) by ring.
+  replace (- Pi + (d2r o0 + d2r w0)) with (d2r w0 + d2r o0 - Pi) by ring.
+  reflexivity.
+Qed.
+
+Theorem orb0_neg_orientation eta pie p w0 o0 v : -180 < dms_sec eta < 0 ->
+  let o := orb_out0_neg eta pie p w0 o0 in
+  orbit_frame (fst (fst o)) (snd (fst o)) (snd o) v
+  = rot_ecl (d2r (dms_sec eta)) (d2r (pie_deg pie)) (d2r (dms_sec p)) (orbit_frame 0 w0 o0 v).
+Proof.
+  intros HE o. unfold o, orb_out0_neg, orbit_frame. cbn [fst snd].
+  set (E := d2r (dms_sec eta)). set (Pi := d2r (pie_deg pie)). set (P := d2r (dms_sec p)).
+  rewrite arg_rotation. fold E Pi.
+  assert (Hs : sin E < 0).
+  { unfold E. replace (dms_sec eta) with (- (- dms_sec eta)) by ring. rewrite d2r_opp, sin_neg.
+    pose proof (sin_d2r_pos (- dms_sec eta) ltac:(lra)). lra. }
+  rewrite (domega_neg E (d2r o0 - Pi)) by exact Hs.
+  rewrite (Rz_d2r_cong _ (pie_deg pie + dms_sec p)) by apply red360_cong'.
+  rewrite (Rx_d2r_cong _ (- dms_sec eta)) by apply red360_cong'.
+  rewrite d2r_plus, d2r_opp. fold Pi P E.
+  unfold rot_ecl. rewrite d2r_0, Rx_0.
+  rewrite (Rz_add (d2r w0) (d2r o0 - Pi) v).
+  rewrite (Rz_add (d2r o0) (d2r w0) v), (Rz_add (- Pi) (d2r o0 + d2r w0) v).
+  replace (Pi + P) with (P + Pi) by ring.
+  replace (- Pi + (d2r o0 + d2r w0)) with (d2r w0 + (d2r o0 - Pi)) by ring.
+  reflexivity.
+Qed.
